@@ -345,6 +345,7 @@ func Worker(t *testing.T) {
 	determEvery := envInt("VERIF_DETERM_EVERY", 0)
 	shrinkBudget := envInt("VERIF_SHRINK", 1500)
 	maxHashes := envInt("VERIF_MAX_HASHES", 400000)
+	maxSigs := envInt("VERIF_MAX_SIGS", 6)
 
 	res := &WorkerResult{Property: prop, Seed: seed, Tier: tier, Stats: map[string]int{}, Rule: c.Rule, Real: c.Real, Stub: c.Stub, Assume: c.Assume}
 	seen := map[uint64]bool{}
@@ -424,6 +425,11 @@ func Worker(t *testing.T) {
 		for _, v := range o.Viol {
 			if fv, ok := found[v.Sig]; ok {
 				fv.Count++
+				continue
+			}
+			if len(found) >= maxSigs {
+				// a blatant breakage produces hundreds of signatures: keep the first ones, count the rest
+				res.Stats["violation_signatures_beyond_cap"]++
 				continue
 			}
 			fv := &FoundViolation{Sig: v.Sig, Detail: v.Detail, Run: run, Count: 1}
